@@ -427,6 +427,12 @@ impl<'s, M: Matcher, S: Sink> Core<'s, M, S> {
                         self.config.line_term.as_byte(),
                         Range::zero(i).offset(pos),
                     );
+                    // As above: a candidate at the position behind the final
+                    // line terminator is not a line.
+                    if line.start() == buf.len() {
+                        pos = buf.len();
+                        continue;
+                    }
                     // We need to strip the line terminator here to match the
                     // semantics of line-by-line searching. Namely, regexes
                     // like `(?m)^$` can match at the final position beyond a
